@@ -28,8 +28,8 @@ var gtSeps = []string{": ", ": ", ":\t", ":  ", ": \t ", ":\t\t"}
 var gtNames = []string{"X", "Y", "Foo/bar", "Foo/k=v/j=w-8", "é", "世/x=1", "\xff", "", "A-16", "A/-", "Sub/a=b/c", "*", "X:y"}
 var gtUnits = []string{"ns/op", "MB/s", "B/op", "allocs/op", "ns/ns", "MB*ns/op", "foo-ns", "xns", "custom", "ns", "sec/op", "B/s", "ns/MB", "é/op", "\xfe/op", "a=b"}
 var gtNums = []string{"1", "0", "5", "100", "1.5", "-3", "+7", "1e9", "1e-9", "0x1p-2", "inf", "+Inf", "-inf", "NaN", "nan", "-0", "1e308", "4.9e-324",
-	"123456789012345678", "9223372036854775807", "9223372036854775808", "9999999999999999999", "18446744073709551616", "1234567890123456789", "0.1", ".5", "5.", "1_0", "0b1", "00012", "2.5e+3"}
-var gtBadNums = []string{"abc", "1e999", "1e", "--1", "1..2", "0x", "é", "1,5", "1e99999"}
+	"123456789012345678", "9223372036854775807", "9223372036854775808", "9999999999999999999", "18446744073709551616", "1234567890123456789", "0.1", ".5", "5.", "0x_1p-2", "00012", "2.5e+3"}
+var gtBadNums = []string{"1_0", "0b1", "abc", "1e999", "1e", "--1", "1..2", "0x", "é", "1,5", "1e99999"}
 var gtIters = []string{"1", "1", "100", "0", "-1", "+5", "1000000000", "9223372036854775807", "007"}
 var gtBadIters = []string{"x", "1.5", "9223372036854775808", "99999999999999999999", "1e3", "0x10", "", "1_000"}
 var gtForeign = []string{"", "PASS", "ok  \tpkg\t0.1s", "Upper: case", "key with space: v", "keyUpper: v", "key x: v", "nocolon", ":", ": v", "key:value",
@@ -45,6 +45,9 @@ func genBenchLine(T *sim.Tape, opts genTextOpts, stressN *int) string {
 	b.WriteString("Benchmark")
 	b.WriteString(sim.Pick(T, gtNames, "name"))
 	bad := T.Intn(12, "benchbad")
+	if opts.stress && bad < 6 {
+		bad = 6 + bad
+	}
 	switch bad {
 	case 0:
 		return b.String() // name only: go test -v chatter
@@ -59,7 +62,11 @@ func genBenchLine(T *sim.Tape, opts genTextOpts, stressN *int) string {
 		return b.String() // no measurements
 	}
 	n := 1
-	switch T.Intn(10, "nvals-kind") {
+	kind := T.Intn(10, "nvals-kind")
+	if opts.stress && kind < 8 {
+		kind = 9 // many measurements per line, each with a unit of its own
+	}
+	switch kind {
 	case 0, 1, 2, 3, 4, 5:
 		n = 1 + T.Intn(3, "nvals")
 	case 6, 7:
@@ -83,7 +90,7 @@ func genBenchLine(T *sim.Tape, opts genTextOpts, stressN *int) string {
 			return b.String() // missing unit
 		}
 		b.WriteString(gtWs(T))
-		if opts.stress && T.Intn(3, "stressunit") == 0 {
+		if opts.stress && T.Intn(8, "stressunit") != 0 {
 			*stressN++
 			fmt.Fprintf(&b, "u%d/op", *stressN)
 		} else {
@@ -131,6 +138,9 @@ func genBenchText(T *sim.Tape, opts genTextOpts) []byte {
 		max = 40
 	}
 	n := T.Small(0, max, "nlines")
+	if opts.stress {
+		n = 18 + T.Intn(14, "stress-lines") // enough long lines to exceed any small intern table, not more
+	}
 	var b strings.Builder
 	stressN := T.Intn(1000, "stressbase") * 10000
 	longAt := -1
@@ -140,6 +150,9 @@ func genBenchText(T *sim.Tape, opts genTextOpts) []byte {
 	for i := 0; i < n; i++ {
 		var line string
 		k := T.Intn(16, "linekind")
+		if opts.stress && k > 1 && k != 5 && k < 13 {
+			k = 8 // benchmark line
+		}
 		switch {
 		case i == longAt:
 			line = "Benchmark" + strings.Repeat("L", 70000) + " 1 1 ns/op"
